@@ -128,12 +128,25 @@ def main(tier, seed):
                 # directed probe (F39): callback types the C++ fn_traits glue cannot convert
                 ops = [t for t in prog.types() if t.kind == "opaque"]
                 if ops:
-                    which = rng.choice(["optarg", "optret", "slicearg"])
-                    cbt = {"optarg": ("cb", [("opt", ("prim", "u8"), "std")], ("prim", "i32"), False),
-                           "optret": ("cb", [("prim", "u8")], ("opt", ("prim", "u32"), "std"), False),
-                           "slicearg": ("cb", [("slice", "i16", False, None, "std")], ("unit",), False)}[which]
-                    pm = tooltier.spec.Method("vf_f39", None, [("f", cbt)], ("prim", "u8"))
                     t_ = rng.choice(ops)
+                    sts = [x for x in prog.types() if x.kind == "struct" and not x.lifetimes]
+                    ens = [x for x in prog.types() if x.kind == "enum"]
+                    shapes39 = {"optarg": ("cb", [("opt", ("prim", "u8"), "std")], ("prim", "i32"), False),
+                                "optret": ("cb", [("prim", "u8")], ("opt", ("prim", "u32"), "std"), False),
+                                "slicearg": ("cb", [("slice", "i16", False, None, "std")], ("unit",), False)}
+                    # (F52, same family) values Rust hands over by ownership, optional aggregates in either direction
+                    shapes52 = {"boxarg": ("cb", [("obox", t_.name, False)], ("prim", "u8"), False),
+                                "optboxarg": ("cb", [("obox", t_.name, True)], ("prim", "u8"), False)}
+                    if sts:
+                        shapes52["optstructarg"] = ("cb", [("opt", ("struct", sts[0].name), "std")], ("prim", "u8"), False)
+                        shapes52["optstructret"] = ("cb", [("prim", "u8")], ("opt", ("struct", sts[0].name), "std"), False)
+                    if ens:
+                        shapes52["optenumarg"] = ("cb", [("opt", ("enum", ens[0].name), "std")], ("unit",), False)
+                        shapes52["optenumret"] = ("cb", [("prim", "u8")], ("opt", ("enum", ens[0].name), "std"), False)
+                    fam = shapes39 if (i // 7) % 2 == 0 else shapes52
+                    which = rng.choice(sorted(fam))
+                    cbt = fam[which]
+                    pm = tooltier.spec.Method("vf_f39" if fam is shapes39 else "vf_f52", None, [("f", cbt)], ("prim", "u8"))
                     pm.owner = t_
                     t_.methods.append(pm)
             if i % 2:
@@ -288,6 +301,8 @@ def main(tier, seed):
                 key = {"kind": lang, "signature": "escaped keyword parameter collides with a sibling parameter spelled <keyword>_"}
             elif lang == "cpp" and isinstance(i, int) and i % 7 == 5 and "fn_traits" in msg and "vf_f39" in msg:
                 key = {"kind": "cpp", "signature": "callback with an Option argument / Option return / primitive-slice argument: fn_traits cannot convert it"}
+            elif lang == "cpp" and isinstance(i, int) and i % 7 == 5 and "fn_traits" in msg and "vf_f52" in msg:
+                key = {"kind": "cpp", "signature": "callback with an owned-opaque argument or an Option<struct|enum> argument / return: fn_traits cannot convert it"}
             elif lang in ("cpp", "c") and isinstance(i, int) and i % 5 == 4 and (KW_LINE.search(msg) or KW_MEMBER.search(msg)):
                 key = {"kind": lang, "signature": "struct field named after a C/C++ keyword"}
             chk.violation("p%s_%s_%s" % (i, lang, re.sub(r"\W", "_", f)[:30]), "program p%s, %s %s: %s" % (i, lang, f, msg[:300]),
